@@ -174,6 +174,13 @@ def _text_pool(t):
             for d in (1, 9):
                 for sg in (1, -1):
                     s.add((sg * d * 10 ** k) & M)
+        # immediates whose LEB128 bytes beyond the 1st / 5th look like structural opcodes (end, else, block, loop, if, br, br_if,
+        # br_table, return, call): a decoder that stops skipping an immediate too early re-reads them as instructions
+        for opb in (0x0b, 0x05, 0x02, 0x03, 0x04, 0x0c, 0x0d, 0x0e, 0x0f, 0x10):
+            for shift in (7, 28, 35, 42, 56):
+                if shift < bits:
+                    s.add((opb << shift) & M)
+                    s.add(((opb << shift) | 0x7f) & M)
         for nbytes in range(1, 11):
             # boundaries of the signed LEB128 length classes: +-2^(7n-1) and neighbours
             for dlt in (-1, 0, 1):
